@@ -424,8 +424,14 @@ class DocBuilder:
             self.want(op, "body", None, JSON, [], v, "swagger.body.schema.allOf[1].example", "deep")
         elif r < 0.85:
             v = new("str")
-            params.append({"name": "f", "in": "formData", "type": "string", "x-example": v, "required": True})
+            fp = {"name": "f", "in": "formData", "type": "string", "x-example": v, "required": True}
+            params.append(fp)
             self.want(op, "body", None, "multipart/form-data", ["f"], v, "swagger.formData.x-example")
+            if rng.random() < 0.5:      # the plural keyword next to the singular one: both are examples of the field
+                for i in range(rng.randint(1, 2)):
+                    v2 = new("str")
+                    fp.setdefault("x-examples", {})[f"e{i}"] = {"value": v2}
+                    self.want(op, "body", None, "multipart/form-data", ["f"], v2, "swagger.formData.x-examples(next to x-example)")
             self.form = True
         self.paths.setdefault(path, {})[method] = {"parameters": params, "consumes": [
             "multipart/form-data" if any(p.get("in") == "formData" for p in params) else JSON],
